@@ -880,7 +880,7 @@ func c06Phout(c *Ctx) {
 		okSet := false
 		EachInstr(setFn, func(in ssa.Instruction) {
 			if st, ok := in.(*ssa.Store); ok {
-				if ia, ok := st.Addr.(*ssa.IndexAddr); ok && ia.Index == ssa.Value(setFn.Params[1]) && st.Val == ssa.Value(setFn.Params[2]) {
+				if ia, ok := st.Addr.(*ssa.IndexAddr); ok && ia.Index == ssa.Value(setFn.Params[1]) && (st.Val == ssa.Value(setFn.Params[2]) || Strip(st.Val) == ssa.Value(setFn.Params[2])) {
 					if fv, _ := FieldOf(ia.X); fv != nil && fv.Name() == "fields" {
 						okSet = true
 					}
